@@ -23,7 +23,11 @@ def main() -> int:
 
     common.setup_path()
     prop = a.prop.upper()
-    mod = importlib.import_module(f"vf.props.{prop.lower()}")
+    try:
+        mod = importlib.import_module(f"vf.props.{prop.lower()}")
+    except BaseException as e:  # noqa: BLE001  -- a defect of the machinery (or a tree that does not even import) is no verdict on the property
+        print(f"INCONCLUSIVE property={prop} reason=the check's own code (or the library it imports) failed to load: {e!r}")
+        return 2
     seed = common.env_seed()
 
     if a.replay:
@@ -60,4 +64,14 @@ def main() -> int:
 
 
 if __name__ == "__main__":
-    sys.exit(main())
+    try:
+        rc = main()
+    except SystemExit:
+        raise
+    except BaseException as e:  # noqa: BLE001  -- exit status 1 is reserved for a reported VIOLATION
+        import traceback
+
+        traceback.print_exc()
+        print(f"INCONCLUSIVE reason=the check's driver crashed: {e!r}")
+        rc = 2
+    sys.exit(rc)
